@@ -142,7 +142,7 @@ class Module:
         if name is not None and val.name is not None:  # Both set, fail.
             msg = f"{val} with conflicting names {name} and {val.name} cannot be added to Module {self.name}"
             raise RuntimeError(msg)
-        if (name or val.name) in _banned:  # Protected names, just like for `setattr`
+        if _is_reserved(self, name or val.name):  # Protected names, just like for `setattr`
             msg = f"Error attempting to over-write protected attribute {name or val.name} of Module {self}"
             raise RuntimeError(msg)
         if name is not None:  # One or the other set - great.
@@ -172,16 +172,20 @@ class Module:
     def __setattr__(self, key: str, val: Any) -> None:
         """Set-attribute over-ride, organizing into type-based containers"""
 
-        if key.startswith("_") or not getattr(self, "_initialized", False):
-            # Bootstrapping phase. Pass along to "regular" setattr.
+        if not getattr(self, "_initialized", False) or (
+            key.startswith("_") and not _is_module_attr(val)
+        ):
+            # Bootstrapping phase, and internal (non-HDL) state. Pass along to "regular" setattr.
             return super().__setattr__(key, val)
 
-        if key in _banned:
-            msg = f"Error attempting to over-write protected attribute {key} of Module {self}"
-            raise RuntimeError(msg)
         # Special case(s)
         if key == "name":
+            if val is not None and not isinstance(val, str):
+                raise TypeError(f"Module name must be a string, not {val}")
             return super().__setattr__(key, val)
+        if _is_reserved(self, key):
+            msg = f"Error attempting to over-write protected attribute {key} of Module {self}"
+            raise RuntimeError(msg)
 
         # Check it's a valid attribute-type
         _assert_module_attr(self, val)
@@ -194,7 +198,14 @@ class Module:
     def __getattr__(self, key: str) -> Any:
         """Include our namespace-worth of HDL objects in dot-access retrievals"""
         if key.startswith("_"):
-            return object.__getattribute__(self, key)
+            try:
+                return object.__getattribute__(self, key)
+            except AttributeError:
+                # Not internal state. HDL attributes may have such names too.
+                ns = object.__getattribute__(self, "namespace")
+                if key in ns:
+                    return ns[key]
+                raise
         ns = self.__getattribute__("namespace")
         if key in ns:
             return ns[key]
@@ -310,6 +321,19 @@ _banned = [
     "add",
     "get",
 ]
+
+
+def _is_reserved(module: Module, name: str) -> bool:
+    """Boolean indication of whether `name` is unavailable for HDL attributes of `module`.
+    That is the protected names above, and those of all its other (Python-level) attributes, properties and methods:
+    dot-access to such a name produces that attribute, and never the HDL object."""
+    if name in _banned:
+        return True
+    try:
+        object.__getattribute__(module, name)
+    except AttributeError:
+        return False
+    return True
 
 
 def _add(module: Module, val: ModuleAttr) -> ModuleAttr:
